@@ -9,7 +9,7 @@
     linearisation events: [EIns t m k now] = thread t's call for message m with key k was
     answered "new" and recorded k at clock [now]; [EDup] = answered "duplicate";
     [ESweep c T clk ks] = cleaner c, at clock clk, ran cleanOut(T) and deleted exactly ks. *)
-From WM Require Import Base.Prelude Dedup.Model Dedup.MonProofs Dedup.Proofs Dedup.ApiProofs Dedup.Timed Dedup.TimedProofs Dedup.Clients Dedup.ClientsProofs.
+From WM Require Import Base.Prelude Dedup.Model Dedup.MonProofs Dedup.Proofs Dedup.ApiProofs Dedup.Timed Dedup.TimedProofs Dedup.Clients Dedup.ClientsProofs Dedup.TimelockProofs.
 Local Open Scope Z_scope.
 
 (** The lookup and the insert of different goroutines never interleave: at most one thread is
@@ -178,8 +178,7 @@ Print Assumptions C14_reaccepted_within_two_windows.
 (** Towards time-lock freedom of the timely system (the urgency assumptions can always be met,
     by thread steps, which take no time and which [tstep] never refuses): whoever holds the
     mutex releases it within three of its own steps; with the mutex free a cleaner that has its
-    tick completes its cycle.  (What is not proved: the composition into "from every reachable
-    state"; it needs the invariant owner = Some t -> holds t, the converse of the one in [Inv].) *)
+    tick completes its cycle.  Composed into [C14_time_can_advance] below. *)
 Theorem C14_holder_releases : forall (w : Z) (s : state) (t : tid),
   holds (thr s t) = true ->
   exists n s', (n <= 3)%nat /\ replay w s (repeat (LThr t) n) = Some s' /\ owner s' = None
@@ -194,6 +193,39 @@ Theorem C14_cleaner_cycle_possible : forall (w : Z) (s : state) (c : tid) (T : Z
              /\ forall k e, alookup k (tags s') = Some e -> T <= e.
 Proof. exact cleaner_cycle_possible. Qed.
 Print Assumptions C14_cleaner_cycle_possible.
+
+(** The converse of the owner invariant: whoever owns the mutex is between Lock and Unlock. *)
+Theorem C14_owner_holds : forall (w t0 : Z) roles sched t,
+  owner (run w (init t0 roles) sched) = Some t -> holds (thr (run w (init t0 roles) sched) t) = true.
+Proof. exact owner_holds. Qed.
+Print Assumptions C14_owner_holds.
+
+(** Time-lock freedom: from EVERY reachable state of the timely system there is a schedule,
+    accepted label by label ([treplay] is strict), that carries the clock past any bound — the
+    urgency assumptions can always be met (the lock holder releases, the cleaner finishes its
+    cycle, the clock moves to the next fire time, the tick is received, ...). *)
+Theorem C14_time_can_advance : forall (w p d : Z) (c : tid) (t0 : Z),
+  0 <= w -> 0 <= d <= p -> forall roles sched X, 0 < p -> roles c = RCleaner ->
+  exists sched' ts', treplay w p d c (trun w p d c (tinit t0 roles) sched) sched' = Some ts'
+                     /\ X <= clock (base ts').
+Proof. exact time_can_advance. Qed.
+Print Assumptions C14_time_can_advance.
+
+(** Closed-system liveness as ONE statement: in the timely system time never stops, and
+    whenever it has carried a call more than w + p + 3d past the last insertion of its key,
+    that call is answered "new". *)
+Theorem C14_closed_system_liveness : forall w p d c t0 roles sched,
+  0 <= w -> 0 <= d <= p -> 0 < p -> roles c = RCleaner ->
+  let ts := trun w p d c (tinit t0 roles) sched in
+  (forall X, exists sched' ts', treplay w p d c ts sched' = Some ts' /\ X <= clock (base ts'))
+  /\ (forall sched' ts', treplay w p d c ts sched' = Some ts' ->
+      forall pre t m k tins mid e rest,
+        rev (trace (base ts')) = pre ++ EIns t m k tins :: mid ++ e :: rest ->
+        forallb (fun y => negb (inserts k y)) mid = true ->
+        calls_key k e = true -> tins + w + p + 3 * d < ev_time e ->
+        is_dup e = false).
+Proof. exact closed_system_liveness. Qed.
+Print Assumptions C14_closed_system_liveness.
 
 (** A sweep is complete: while the cleaner still holds the lock after cleanOut(T), no
     remembered key has an expiry before T. *)
